@@ -7,6 +7,8 @@ CONSTANTS
   FixTrunc = TRUE
   FixGuard = TRUE
   FixOct0 = FALSE
+  FixSkip = TRUE
+  FixUncl = TRUE
   Emit = FALSE
   WithBad = TRUE
 INVARIANT ImplEqualsClaims
